@@ -4,6 +4,6 @@
 From Coq Require Import NArith List Bool.
 From MP Require Import Model.Lexer Model.Parser Proofs.LrComplete Proofs.Layout Proofs.Surface Proofs.SurfaceLayout Corr.CheckParser.
 Import ListNotations.
-Definition instance_of_layout_theorem (c : list xcmd * list text * text * text) : bool :=
-  let '(p, gaps, final, src) := c in
-  match p with [] => false | _ => surface_okb p gaps final && text_eqb (lay (combine gaps (tkx_program p)) final) src end.
+Definition instance_of_layout_theorem (c : list xcmd * list text * text * text * list (text * text)) : bool :=
+  let '(p, gaps, final, src, fl) := c in
+  match p with [] => false | _ => surface_okb (assoc_text fl) p gaps final && text_eqb (lay (combine gaps (tkx_program p)) final) src end.
